@@ -232,7 +232,7 @@ def check_inspect(case, stats: Stats):
     r = cli.run(['inspect', path])
     out = r.out + r.err
     jcase = dict(case, rows=[[str(d), desc, c] for d, desc, c in case['rows']], kind='inspect')
-    if 'Traceback' in out:
+    if obs.crashed(out):
         raise Violation(f'`tally inspect` crashed on\n{text}\n{out[-800:]}', jcase, 'inspect-crash')
     m = re.search(r'Suggested format string:\s*\n\s*format: "([^"]*)"', out)
     classes = set()
